@@ -159,7 +159,8 @@ def rule_conversion_factor_memo(ck, ix):
                                         f"stored factor `{nm}` is component {kind[6:]} of the (factor, units) pair")
                 ck.floor("G-MEMO-KEY", len(src_calls), 1, "factor computed from _get_root_units")
                 for c in src_calls:
-                    arg = c.args[0] if c.args else None
+                    from . import shape as _shq
+                    arg = _shq.unalias(c.args[0], fi.node) if c.args else None      # `ratio = src / dst` hoisted into a temporary
                     ok = isinstance(arg, ast.BinOp) and isinstance(arg.op, ast.Div) and norm(arg.left) == a and norm(arg.right) == b
                     ck.check(ok, "G-MEMO-KEY", "conversion_factor|factor-orientation-matches-key", fi.loc(c),
                              f"factor for key ({a}, {b}) computed from {a} / {b}",
@@ -925,7 +926,8 @@ def rule_lazy_prefixed_units(ck, ix):
     independent the lazily registered entry must be invisible to everything that distinguishes defined from derived
     spellings: it is stored once, under prefix + unit_name only, and it stays out of the case-insensitive index that
     _yield_unit_triplets uses as 'is a defined spelling' test."""
-    fi = ix.func(PR, "GenericPlainRegistry.get_name")
+    from .lib import inlined as _inl
+    fi = _inl(ix, ix.func(PR, "GenericPlainRegistry.get_name"), skip=("_helper_adder", "_helper_single_adder"))     # an extracted `_define_prefixed_unit` is looked through
     ck.analysed(fi)
     defs = defs_of(fi)
     ws = writes_in(fi.node)
